@@ -19,6 +19,7 @@
     racing_write_is_linearizable racing_history_is_plain_history reload_current_racing_partial
     code_takes_mtime_of_opened_file stat_after_open_serves_stale
     load_outcome_is_first_on_path reload_current_full_iff_noshadow
+    reload_current_noshadow_racing_partial mtime_reuse_serves_stale
 -/
 import Genshi.Lemmas.Lru
 import Genshi.Lemmas.LruAbs
@@ -463,34 +464,75 @@ theorem code_takes_mtime_of_opened_file : Genshi.Gen.Loader.mtimeOfOpenedFile = 
     after `open` — leaves file system, clock and loader state, and returns the result, of the plain
     history `linearise`: the load then the write (after `open`), the write then the load (before
     `open`), or the load alone when no directory file was opened. -/
-theorem racing_write_is_linearizable (cfg : Cfg) (ops : List HOpR) (r : Req) (rw : RaceW) :
+theorem racing_write_is_linearizable (cfg : Cfg) (ops : List HOpR)
+    (hv : ValidR cfg (World.init cfg.cap) ops) (r : Req) (rw : RaceW) :
     let w := (hrunR true cfg (World.init cfg.cap) ops).1
     (hrun cfg w (linearise r rw (firedAt cfg w r rw))).1 = (hstepR true cfg w (.loadRace r rw)).1 ∧
     (hrun cfg w (linearise r rw (firedAt cfg w r rw))).2.filterMap id =
       [(hstepR true cfg w (.loadRace r rw)).2].filterMap id :=
-  hstepR_linear (inv_hrunR (inv_init cfg.cap) ops) r rw
+  hstepR_linear (inv_hrunR ops (inv_init cfg.cap) hv) r rw
 
 /-- **Histories with racing replacements are plain histories**: same final world, same results
     of the loads in order.  Every theorem of this file about `hrun` therefore speaks about
     histories in which files are replaced while they are being loaded. -/
-theorem racing_history_is_plain_history (cfg : Cfg) (ops : List HOpR) :
+theorem racing_history_is_plain_history (cfg : Cfg) (ops : List HOpR)
+    (hno : ∀ op ∈ ops, op.isWriteAt = false) :
     ∃ ops' : List HOp,
       (hrun cfg (World.init cfg.cap) ops').1 = (hrunR true cfg (World.init cfg.cap) ops).1 ∧
       (hrun cfg (World.init cfg.cap) ops').2.filterMap id =
         (hrunR true cfg (World.init cfg.cap) ops).2.filterMap id :=
-  hrunR_plain cfg ops _ (inv_init cfg.cap)
+  hrunR_plain cfg ops hno _ (inv_init cfg.cap)
 
-/-- … in particular `reload_current_partial`: with automatic reloading, after every history with
-    racing replacements a load returns a template with the current content of the file it came
-    from.  (Partial for the same reason as `reload_current_partial`: finding C15-shadow.) -/
-theorem reload_current_racing_partial (cfg : Cfg) (har : cfg.autoReload = true) (ops : List HOpR) (r : Req)
-    (ls' : LState) (t : Tmpl)
+/-- **Modification times need not grow.**  `reload_current_partial` for histories in which
+    files are replaced while they are loaded *and* modifications set any modification time —
+    older ones included (`HOpR.writeAt`: restore from a backup, checkout of an older revision,
+    `rsync -t`) — as long as the time set *differs* from every time the loader remembers for that
+    file (`ValidR` / `FreshTime`; `write` and `touch`, stamped by the clock, always do): a load
+    with automatic reloading returns a template with the current content of the file it came
+    from.  The code compares the remembered time with `==`; a comparison by order (`<=`: "stale
+    only if the file is newer") fails this theorem's history class (seeded change C15-4).
+    (Partial for the same reason as `reload_current_partial`: finding C15-shadow.  A different
+    content under a remembered time is the limit of reloading by modification time:
+    `mtime_reuse_serves_stale`.) -/
+theorem reload_current_racing_partial (cfg : Cfg) (har : cfg.autoReload = true) (ops : List HOpR)
+    (hv : ValidR cfg (World.init cfg.cap) ops) (r : Req) (ls' : LState) (t : Tmpl)
     (h : load cfg (hrunR true cfg (World.init cfg.cap) ops).1.fs
           (hrunR true cfg (World.init cfg.cap) ops).1.ls r = some (ls', .ok t)) :
     ∃ f, (hrunR true cfg (World.init cfg.cap) ops).1.fs t.loc = some f ∧ f.content = t.content :=
-  load_current (inv_hrunR (inv_init cfg.cap) ops) har h
+  load_current (inv_hrunR ops (inv_init cfg.cap) hv) har h
+
+/-- … and `reload_current_noshadow_partial` for the same histories: under `NoShadow` the
+    returned template has the current content of the file found first on the search path. -/
+theorem reload_current_noshadow_racing_partial (cfg : Cfg) (har : cfg.autoReload = true) (ops : List HOpR)
+    (hv : ValidR cfg (World.init cfg.cap) ops) (r : Req) (hf : r.fault = .none) (ls' : LState) (t : Tmpl)
+    (hns : NoShadow cfg (hrunR true cfg (World.init cfg.cap) ops).1 r)
+    (h : load cfg (hrunR true cfg (World.init cfg.cap) ops).1.fs
+          (hrunR true cfg (World.init cfg.cap) ops).1.ls r = some (ls', .ok t)) :
+    ∃ key entries isabs f, resolve cfg.path.isEmpty r = some key ∧
+      searchPath cfg r key = some (entries, isabs) ∧
+      firstOnPath (hrunR true cfg (World.init cfg.cap) ops).1.fs key entries = some (t.loc, f) ∧
+      f.content = t.content :=
+  load_current_first (inv_hrunR ops (inv_init cfg.cap) hv) har hf hns h
 
 def raceCfg : Cfg := { path := [.dir 0 false], autoReload := true, cap := 2 }
+def reuseOps : List HOpR :=
+  [.plain (.write ⟨0, false, 0⟩ 100 false), .plain (.load { base := 0 }), .writeAt ⟨0, false, 0⟩ 101 false 1]
+
+/-- The limit of reloading by modification time, and why `FreshTime` is needed: a different
+    content stored under the very time the loader remembers (`writeAt … 1` after the file was
+    parsed at time 1) is served stale — by any implementation that only looks at the time. -/
+theorem mtime_reuse_serves_stale :
+    ¬ ValidR raceCfg (World.init 2) reuseOps ∧
+    ∃ ls' t, load raceCfg (hrunR true raceCfg (World.init 2) reuseOps).1.fs
+        (hrunR true raceCfg (World.init 2) reuseOps).1.ls { base := 0 } = some (ls', .ok t) ∧
+      t.content = 100 ∧
+      ((hrunR true raceCfg (World.init 2) reuseOps).1.fs t.loc).map (·.content) = some 101 := by
+  refine ⟨?_, _, _, rfl, rfl, rfl⟩
+  intro h
+  have hf : FreshTime (hrunR true raceCfg (World.init 2)
+      [.plain (.write ⟨0, false, 0⟩ 100 false), .plain (.load { base := 0 })]).1 ⟨0, false, 0⟩ 1 := h.2.2.1
+  exact hf ⟨none, false, 0⟩ ⟨0, ⟨0, false, 0⟩, 100, 0, 0, false⟩ 1 (by decide) rfl rfl
+
 def raceOps : List HOpR :=
   [.plain (.write ⟨0, false, 0⟩ 100 false), .loadRace { base := 0 } ⟨false, 101, false⟩]
 
@@ -533,6 +575,24 @@ example : firstOnPathF (fsSet (fun _ => none) ⟨1, false, 0⟩ (some ⟨7, fals
     .other ⟨none, false, 0⟩ [.dir 0 false, .fn 1 true, .dir 2 false] = .raised := by decide
 example : firstOnPathF (fsSet (fun _ => none) ⟨1, false, 0⟩ (some ⟨7, false, 1⟩))
     .none ⟨none, false, 0⟩ [.dir 0 false, .fn 1 true, .dir 2 false] = .file ⟨1, false, 0⟩ ⟨7, false, 1⟩ := by decide
+-- a modification with an *older* time (3 → 1) is noticed, a valid history
+example : (hrunR true ⟨[.dir 0 false], true, 2, true⟩ (World.init 2)
+    [.writeAt ⟨0, false, 0⟩ 100 false 3, .plain (.load { base := 0 }), .writeAt ⟨0, false, 0⟩ 101 false 1,
+     .plain (.load { base := 0 })]).2.map
+      (fun o => o.map fun r => match r with | .ok t => t.content | .err _ => 0) =
+    [none, some 100, none, some 101] := by
+  decide
+example : ValidR ⟨[.dir 0 false], true, 2, true⟩ (World.init 2)
+    [.writeAt ⟨0, false, 0⟩ 100 false 3, .plain (.load { base := 0 }), .writeAt ⟨0, false, 0⟩ 101 false 1] := by
+  refine ⟨?_, trivial, ?_, trivial⟩
+  · intro k t m' hm; simp [World.init, LState.init, Genshi.Lru.aempty] at hm
+  · intro k t m' hm hu
+    have hk : k = ⟨none, false, 0⟩ := by
+      have : (k, t) ∈ [((⟨none, false, 0⟩ : Key), (⟨0, ⟨0, false, 0⟩, 100, 0, 0, false⟩ : Tmpl))] := hm
+      simp at this; exact this.1
+    subst hk
+    have : (some (Utd.mtime ⟨0, false, 0⟩ 3) : Option Utd) = some (.mtime ⟨0, false, 0⟩ m') := hu
+    simp at this; omega
 -- racing replacements that land: after `open` (the old content is returned, the next load
 -- reloads), before `open` (the new content is returned)
 example : (hrunR true ⟨[.dir 0 false], true, 2, true⟩ (World.init 2)
